@@ -234,6 +234,20 @@ static bool GC_Mem_Ptr(struct GC* gc, var ptr) {
 
 }
 
+static void GC_Del_Unregistered(var ptr) {
+  
+#if CELLO_ALLOC_CHECK == 1
+  /* Objects on the stack, in static storage or inside a container are not
+  ** deleted: refuse before the destructor has released anything they own */
+  if (ptr isnt NULL and header(ptr)->alloc isnt (var)AllocHeap) {
+    dealloc(ptr);
+    return;
+  }
+#endif
+  
+  dealloc(destruct(ptr));
+}
+
 static void GC_Rem_Ptr(struct GC* gc, var ptr) {
   
   /* An object the running sweep has set aside: finalise it now if the
@@ -249,7 +263,7 @@ static void GC_Rem_Ptr(struct GC* gc, var ptr) {
   
   /* Not registered, for example allocated while the collector was
   ** stopped: there is no entry to remove but the object is still deleted */
-  if (gc->nslots is 0) { dealloc(destruct(ptr)); return; }
+  if (gc->nslots is 0) { GC_Del_Unregistered(ptr); return; }
   
   uint64_t i = GC_Hash(ptr) % gc->nslots;
   uint64_t j = 0;
@@ -257,7 +271,7 @@ static void GC_Rem_Ptr(struct GC* gc, var ptr) {
   while (true) {
     
     uint64_t h = gc->entries[i].hash;
-    if (h is 0 or j > GC_Probe(gc, i, h)) { dealloc(destruct(ptr)); return; }
+    if (h is 0 or j > GC_Probe(gc, i, h)) { GC_Del_Unregistered(ptr); return; }
     if (gc->entries[i].ptr is ptr) {
       
       var freeitem = gc->entries[i].ptr;
